@@ -1,18 +1,23 @@
 """C07: compatible preferred candidates are selected exactly."""
 import vlib
-from props import solverstream as ss
+from props import solverstream as ss, tracecheck as tc
 
-THEOREMS = ["C07_oracle_sound"]
-CHECKER = ("coqc Props/C07.v + Print Assumptions; harness solve_cases -> whenever extracted o_greedy = Some G the "
-           "returned set must equal G")
+THEOREMS = ["C07_oracle_sound", "C07_run_invariant", "C07_greedy_exact", "C07_trace_greedy"]
+CHECKER = ("coqc Props/C07.v + Print Assumptions; harness solve_cases: (a) hook logs -> extracted check_sat_log (rule D1 "
+           "enforced on every decision; theorem C07_trace_greedy), (b) whenever extracted o_greedy = Some G the returned "
+           "set must equal G")
 
 
 def run(res, tier, seed, replay):
     vlib.proof_gate(res, "C07", THEOREMS)
     if replay:
-        recs, hangs = ss.run_replay(replay), []
+        recs, hangs = ss.run_replay(replay, dump=True), []
     else:
-        recs = ss.corpus_recs("C07")
+        recs = ss.corpus_recs("C07", dump=True)
+        r4, h4 = ss.run_streams([("greedy", 25, "sync", "debug", 800 * (1 if tier == "quick" else 25)),
+                                 ("greedy", 25, "yield", "debug", 300 * (1 if tier == "quick" else 25)),
+                                 ("conflict", 127, "sync", "debug", 500 * (1 if tier == "quick" else 25))], seed + 29, dump=True)
+        recs += r4
         n = 1 if tier == "quick" else 30
         streams = [("greedy", 25, "sync", "debug", 1500 * n), ("greedy", 25, "sync", "release", 1000 * n),
                    ("greedy", 25, "yield", "debug", 500 * n), ("greedy", 17, "sync", "debug", 500 * n),
@@ -20,6 +25,7 @@ def run(res, tier, seed, replay):
         r2, hangs = ss.run_streams(streams, seed + 23)
         recs += r2
     ref = ss.oracle_ref(recs)
+    tc.annotate(recs)
     applicable = 0
     for r in recs:
         key = r["key"]
@@ -36,8 +42,11 @@ def run(res, tier, seed, replay):
         elif sorted(r["obs"]["outcome"]["sat"]) != sorted(g):
             res.violation(key, f"greedy selection is {sorted(g)} but the solver returned {sorted(r['obs']['outcome']['sat'])} in {r['stream']}",
                           ss.replay_obj(r))
+        elif "trace" in r and not (r["trace"].get("db") and r["trace"].get("run") and r["trace"].get("strict")):
+            res.tie_break(f"trace inclusion (C07_trace_greedy) no longer checks for a run in {r['stream']}: checker verdict "
+                          f"{r['trace']}; the returned selection equals the greedy one", tc.trace_replay(r))
     res.rule = ("conflict-free-by-construction universes (chains, diamonds, cycles, unions, favored, hint masks) plus the "
                 "general streams; the check applies when the Coq-verified greedy_okb accepts the closure (counted as "
                 "'applicable'); non-trivial = applicable with |G| >= 3")
-    res.extra.update({"applicable": applicable, "hangs": len(hangs)})
+    res.extra.update({"applicable": applicable, "hangs": len(hangs)}, **tc.stats(recs))
     return res.finish(CHECKER, vlib.TRUSTED_BASE, [])
